@@ -1,0 +1,15 @@
+//go:build verif
+
+// Package verifhook is the observation point of the verification harness (build tag "verif").
+// Without the tag every call is an empty function.
+package verifhook
+
+// Hook is installed by the harness; it receives the name of the point reached and two integers.
+var Hook func(point string, a, b int)
+
+// At reports that the calling goroutine reached the given point.
+func At(point string, a, b int) {
+	if h := Hook; h != nil {
+		h(point, a, b)
+	}
+}
